@@ -60,7 +60,7 @@ func runC14(s *core.Sim, tier string) RunInfo {
 	firstDel := map[uint64]int{}
 	keyHeight := func(k string) (uint64, bool) {
 		for _, h := range m.Heights() {
-			if k == fmt.Sprintf("/headers/%d", h) || k == "/headers/"+w.Ch.At(h).Hash().String() {
+			if k == fmt.Sprintf("%s/%d", w.Prefix, h) || k == w.Prefix+"/"+w.Ch.At(h).Hash().String() {
 				return h, true
 			}
 		}
